@@ -37,14 +37,16 @@ Three kinds of cases:
                        list / integer / float / string, so the verdict is the one of the plain value: as a new tag it gets the
                        documented default of the builtin (J; J or B for a list, by its elements; i; f; Z), is written in that
                        syntax and read back equal (`==`); under a declared datatype (J / B / i / f / Z) likewise; a list
-                       subclass with mixed or out-of-range numbers under B is reported.  Labels `<dt>.sub-<class>`.
+                       subclass with mixed or out-of-range numbers under B is reported.  Labels `<dt>.sub-<builtin>` (J.sub-dict,
+                       J.sub-list, B.sub-list, i.sub-int, f.sub-int, f.sub-float, Z.sub-str; the class is in the message).
                      (b) `"t": "jbad"`: a list / dict for a J tag (declared J, or new: the default of a dict or of a list that
                        is not all-int / all-float is J) with, somewhere inside (first level, in a dict, three levels deep,
                        twice), an element that JSON has no form for: bytes, bytearray, gfapy.ByteArray, set, frozenset,
                        decimal.Decimal, fractions.Fraction, complex, gfapy.Placeholder, object(), range, datetime.date, a
                        class, Ellipsis, a gfapy.Line.  No JSON text reads back as such a value, so the J datatype cannot
                        represent it: the reporting half applies (refused by set, or reported by validate() at every level
-                       and at level >= 2 not written by field_to_s / str).  Labels `J.json-with-<class>`.
+                       and at level >= 2 not written by field_to_s / str).  Label `J.json-with-foreign-element` (the class of
+                       the element is in the message).
                      Not judged here: tuples and NumericArrays inside a JSON value (written as JSON lists), containers that are
                      no dict / list subclasses (UserDict, ChainMap, deque, tuple), IntFlag, subclasses that override
                      __str__ / __repr__ / __eq__, circular structures.
@@ -434,10 +436,10 @@ def obj_plan(case):
             return None
         if decl and case["when"] == "after" and (d0 is None or _o.representable(d0, base, v) is not True):
             return None          # stored under the default datatype of its class first: only judged when that is possible
-        return v, dt, "rep" if rep else "unrep", "%s.sub-%s" % (dt, spec["cls"]), d0
+        return v, dt, "rep" if rep else "unrep", "%s.sub-%s" % (dt, SUBCLASSES[spec["cls"]]), d0
     v = build_jbad(spec)
     # the default datatype of a dict is J, of a list J unless all elements are int or all are float: never the case here
-    return v, "J", "unrep", "J.json-with-%s" % spec["elem"], "J"
+    return v, "J", "unrep", "J.json-with-foreign-element", "J"
 
 
 def run_obj(F, case, ver, base, vlevel):
